@@ -729,7 +729,10 @@ def composite_names_case(ctx, rng, idx):
                 c1 = np.array(cov)
                 c1[:, j] += 0.5
                 v1 = model.compute_log_likelihood(t, obs, covariates=c1)
-                if v1 != v0:
+                # (a column that acts shifts a parameter by 0.15; sums of
+                # identical numbers may differ in the last place from call
+                # to call with the alignment of numpy's buffers)
+                if abs(v1 - v0) > 1e-9 * (1 + abs(v0)):
                     moved.append(j)
         except Exception as e:      # noqa
             ctx.violation_exc('evaluation_raises', e, {'case': feats},
